@@ -1367,6 +1367,7 @@ static void inject(int o, long i, long j) {
 	static runres r, rep;
 	const char *w;
 	const char *tag = j ? "fault2" : "fault";
+	int easy_before = fc_easy_live;
 	cur_op = op->name; cur_i = i; cur_j = j;
 	if (vf_replaying()) fprintf(stderr, "[C19] %s: failing allocation %ld (second fault: %ld) of %ld\n", op->name, i, j, b->N);
 	op->setup(op->k);
@@ -1395,6 +1396,8 @@ static void inject(int o, long i, long j) {
 		failf("leak", "%ld SDK allocation(s) still live after freeing every object and the context (faulted call returned 0x%x)", vf_alloc_live, r.rc);
 		vf_alloc_live = 0;
 	}
+	/* transfer handles of the HTTP library are resources of the SDK as well */
+	if (fc_easy_live != easy_before) failf("leak-http-handle", "%d libcurl easy handle(s) not cleaned up after freeing every object and the context", fc_easy_live - easy_before);
 }
 
 /* at the start of every case: the operation still behaves as in the counting run of the enumeration */
